@@ -76,6 +76,7 @@ TraceNext ==
   \/ IsEvent("c.waited") /\ C_Waited
   \/ IsEvent("x.cancel") /\ (IF parentCancelled THEN UNCHANGED vars ELSE Cancel)    \* cancelling twice is a no-op
   \/ (IsEvent("start") /\ UNCHANGED vars /\ started /\ Ev.n = N /\ Ev.cap = Cap)
+  \/ IsEvent("c.offs") /\ UNCHANGED vars /\ cOff = Ev.cur /\ pOff = Ev.prev
   \/ Skip("s.errexit") \/ Skip("r.exit") \/ Skip("w.exit") \/ Skip("c.closed")
 
 TraceSpec == TraceInit /\ [][TraceNext]_tvars
